@@ -321,6 +321,25 @@ theorem run_trichotomy_partial {ph : Phys} (inp : Inputs ℝ) (kCN : Nat) (hi : 
       exact vial_trichotomy_admissible ph st.valid _ (le_of_lt h1) h2
     exact step_trichotomy ph st.valid inp.p st.consts (ne_of_gt st.dt_pos) (j == kCN) j T sj i v hv hs
 
+/-- **a recorded transition is one of the three whenever the vial's ice fraction is in `[0, 1)`**
+(UNCONDITIONAL otherwise: no stability range, no side condition): in particular every transition
+out of an ice-free column, and — by C06 `run_admissible_until_first_nucleation`,
+`run_bounds_uncoupled`, `run_bounds_below_liquidus` — every transition up to and including the
+first column with ice, every transition of thermally uncoupled vials and of processes starting
+at or below the liquidus. -/
+theorem run_transition_of_range (ph : Phys) (hv : ph.Valid) (inp : Inputs ℝ) (hc : inp.p.c = ph.consts)
+    (hdt : inp.p.dt ≠ 0) (kCN : Nat) (j : Nat) (sj : State ℝ) (T : ℝ)
+    (hj : (runWith inp kCN).traj[j]? = some sj) (hT : (runWith inp kCN).Tshelf[j]? = some T)
+    (i : Nat) (v : Vial ℝ) (hvi : sj.vials[i]? = some v) (h0 : 0 ≤ v.sigma) (h1 : v.sigma < 1) :
+    (j + 1 < (runWith inp kCN).traj.size →
+        (runWith inp kCN).traj[j + 1]? = some (step inp.p kCN j T sj)) ∧
+    ∃ v', (step inp.p kCN j T sj).vials[i]? = some v' ∧ IsTransition ph inp.p (j == kCN) j T sj i v v' := by
+  have hrs := run_steps inp kCN
+  simp only at hrs
+  refine ⟨fun h => hrs.2.2.2.1 j sj T hj hT h, ?_⟩
+  exact step_trichotomy ph hv inp.p hc hdt (j == kCN) j T sj i v hvi
+    (fun _ => vial_trichotomy_admissible ph hv _ h0 h1)
+
 /-- **a run on a declared shape uses the geometric heat flow**: when the parameters of the run
 are built by `Params.withShape` (which is what the driver does for the `arr`/`shape` the user
 configured, `Ops/Flake.lean`), then in every step of the run the new value of vial `i` is
